@@ -162,7 +162,9 @@ func (e *SCall) String() string {
 	}
 	return e.Fn + "(" + strings.Join(xs, ", ") + ")"
 }
-func (e *SCond) String() string { return "(" + e.C.String() + " ? " + e.A.String() + " : " + e.B.String() + ")" }
+func (e *SCond) String() string {
+	return "(" + e.C.String() + " ? " + e.A.String() + " : " + e.B.String() + ")"
+}
 func (e *SQuant) String() string {
 	q := "exists"
 	if e.Forall {
